@@ -287,11 +287,16 @@ func (s *Sim) execBlock(st *Step) {
 		if len(signers) == 0 {
 			break
 		}
-		v := signers[int(e[0])%len(signers)]
 		eh := h - e[1]
 		if eh < 1 {
 			eh = 1
 		}
+		// the culprit is a validator of the evidence height (it may be jailed or gone by now)
+		then := d.SignersOf(eh + 1).Sorted()
+		if len(then) == 0 {
+			then = signers
+		}
+		v := then[int(e[0])%len(then)]
 		evidence = append(evidence, abci.Evidence{Type: "duplicate/vote", Validator: abci.Validator{Address: v.Addr, Power: v.Power}, Height: eh,
 			Time: t.Add(-time.Duration(e[2]) * time.Second), TotalVotingPower: d.SignersOf(h).Total()})
 		s.res.Fault("double_sign_evidence")
